@@ -338,3 +338,11 @@ Proof.
       pose proof (own_mins_all l jobmin 0 x c Hf Eo E) as Hall. pose proof (sum_split l Hf) as Hs.
       rewrite fill_up_exact; auto; lia.
 Qed.
+
+Example minres_example :
+  let l := [mkPT (mkTask 1 3 (Some 1) [] None) 100 64 10; mkPT (mkTask 2 2 None [] None) 250 0 20] in
+  Forall ptask_ok l /\ 0 <= 4 <= sum_replicas l /\
+  calc_min_resources_sorted 4 l (total_min l) = mkR 4 (3 * 100 + 250) (3 * 64).
+Proof.
+  cbv zeta. split; [repeat constructor; cbn; lia|]. split; [cbn; lia|]. vm_compute. reflexivity.
+Qed.
